@@ -427,6 +427,12 @@ def run(run: Run):
     run.rule('C18.R5', 'titles and sizes reported by an instance are its own (no class-level mutable state handed out or changed)')
     run.guard('C18.R5', check_per_instance_state, run, 'C18.R5', rt)
     run.floor('C18.R5', 6)
+    from . import c08
+    from ..callgraph import get_callgraph
+    run.rule('C18.R7', 'what is read back is the data of the class in force: no value is kept between queries (shared with C08.R1/R4)')
+    borrow(run, 'C18.R7', c08.r1, src, rt, get_callgraph(src))
+    borrow(run, 'C18.R7', c08.r4, src, rt)
+    run.floor('C18.R7', 50)
     run.rule('C18.R6', 'a sheet is addressed by its title through the title table only (shared with C02.R3)')
     borrow(run, 'C18.R6', c02.r3, src)
     run.floor('C18.R6', 2)
